@@ -232,6 +232,7 @@ def run(ctx):
     rep.rule('R1.2', 'no one-shot resource (iterator, generator, open file) is stored on the view at construction')
     rep.rule('R1.3', 'shared-state discipline: every attribute written by iterator-reachable code is reviewed and obeys its discipline')
     rep.rule('R1.5', 'source protocol: open() in a read mode hands out a stream created by that very call, never one kept on the source object from an earlier open()')
+    rep.rule('R1.6', 'sort(): a pass served from the memory / file cache merges the cached runs with the key function and direction they were sorted with (C05 R5.2)')
     rep.rule('R1.4', 'no process-global mutable state in view code (module-level random functions, os.environ, chdir, globals)')
     rep.assumptions = ['sources are deterministic and user callbacks are side-effect free',
                        'methods named clearcache/reseed/__setitem__ are invoked by the user, not by iterators, '
@@ -251,8 +252,27 @@ def run(ctx):
         n_shared += r13(ctx, rep, v, found)
     r14(ctx, rep)
     r15(ctx, rep)
+    # R1.6: a pass served from the sort caches replays the pass that filled them: same merge, same key function, same
+    # direction (the C05 R5.2 obligations of SortView)
+    from . import c05 as _c05
+    from ..report import Report as _Report
+    _sub = _Report('C05', ctx.tier, ctx.root)
+    _sv = ctx.project.need_class('petl.transform.sorts:SortView')
+    _nc = ctx.project.need_fn('petl.transform.sorts:SortView._iternocache')
+    _c05.r52(ctx, _sub, _sv, _nc)
+    _n16 = 0
+    for _o in _sub.obligations:
+        _n16 += 1
+        rep.add('R1.6', (_o.module, _o.qualname), _o.construct, _o.status, _o.message, _o.lineno, _o.detail)
+    if _n16 < 3:
+        raise AnalysisError('anchor vanished: cached-pass obligations of SortView (%d)' % _n16)
     # the `flag` discipline of CacheView.cachecomplete also requires the flag to be truthful
-    from .common import cacheview_flag_truthful
+    from .common import cacheview_flag_truthful, cacheview_flag_reset
+    _ci, _bad = cacheview_flag_reset(ctx)
+    for _f2, _node in _bad:
+        rep.violated('R1.3', _f2, norm(_node)[:60],
+                     '%s replaces / empties the memo but leaves cachecomplete as it is: after a complete pass the flag stays '
+                     'raised, so later passes are served from the emptied memo and differ from the first' % _f2.name, _node)
     cfn, cex = cacheview_flag_truthful(ctx)
     if cex is None:
         rep.held('R1.3', cfn, 'self.cachecomplete = True', 'raised only while every row of the pass was memoised', cfn.node)
